@@ -95,9 +95,16 @@ def case_fragment_matches(inp):
     tot = sum(ints)
     if tot > 0:
         frac = sc.get_matched_intensity_percentage(got, list(ints))
-        peaks = {(m.mz, m.intensity) for m in got}
-        # distinct matched peaks (peaks are distinct m/z values in the generated inputs)
-        expf = sum(it for (_, it) in peaks) / tot
+        if len(set(pm)) == len(pm):
+            peaks = {(m.mz, m.intensity) for m in got}      # distinct m/z values: a peak is its (m/z, intensity)
+            expf = sum(it for (_, it) in peaks) / tot
+        elif mode == 'all':
+            # two peaks may share one m/z value: the distinct matched peaks are the matched INDICES
+            idx = sorted({j for f in fm for j in brute(f, pm, tol, ttype)})
+            expf = sum(ints[j] for j in idx) / tot
+            inp['_dup_matched'] = len({pm[j] for j in idx}) < len(idx)
+        else:
+            return True, exp_all, triples, ('fm', mode, tuple(triples)[:6])
         if not (abs(frac - expf) < 1e-9 and -1e-12 <= frac <= 1 + 1e-12):
             return False, ('intensity-fraction', expf), frac, None
     return True, exp_all, triples, ('fm', mode, tuple(triples)[:6])
@@ -180,7 +187,8 @@ def run(rec, tier, seed, only=None):
                 inp2 = dict(inp, mode=mode, ints=ints)
                 rec.guarded('match_spectra@' + mode, inp2, lambda: case_match(inp2))
         # fragment matches: distinct peak m/z values, every input order of fragments and peaks
-        peaks_sets = [[], [100.0], [100.0, 100.01], [100.0, 100.01, 100.5], [100.02, 100.0, 200.0, 100.01]]
+        peaks_sets = [[], [100.0], [100.0, 100.01], [100.0, 100.01, 100.5], [100.02, 100.0, 200.0, 100.01],
+                      [100.0, 100.0, 100.5]]      # two peaks at one m/z value (different intensities)
         frag_sets = [[], [100.0], [100.01, 100.0], [100.0, 100.5, 100.01], [200.0, 100.02, 100.0]]
         for pm0 in peaks_sets:
             for perm in set(itertools.permutations(range(len(pm0)))):
@@ -201,6 +209,8 @@ def run(rec, tier, seed, only=None):
 def fk_fm(inp, exp, obs):
     if not inp['peak_mz'] and isinstance(obs, str) and 'not enough values to unpack' in obs:
         return 'C17-empty-spectrum-unpack'
+    if inp.get('_dup_matched') and isinstance(exp, tuple) and exp and exp[0] == 'intensity-fraction':
+        return 'C17-same-mz-peaks-counted-once'
     return None
 
 
